@@ -328,6 +328,14 @@ def _exc_name(exc):
 # ------------------------------------------------------------------------------------------------
 def eval_case(case, classes=None):
     """Return (failures, info): failures = [(ident, detail)], info = dict of observations."""
+    fails, info = _eval_case(case, classes)
+    if case["k"] == "grid" and any(i["mechanism"] in ("csv2numbers", "cat-numbers") for i, _ in fails) and not os.path.exists(_paths()[0]):
+        # the scratch files vanished under us (another run's clean-up of the shared temp directory): once more
+        fails, info = _eval_case(case, classes)
+    return fails, info
+
+
+def _eval_case(case, classes=None):
     classes = classes if classes is not None else {}
     flags = list(case.get("flags", []))
     csv_path, out_path = _paths()
